@@ -175,7 +175,7 @@ theorem map_asciiLower_id (n : List Char) (h : ∀ c ∈ n, asciiLower c = c) : 
 theorem safeName_spec (lower : Bool) (n : Name) (h : safeName lower n = true) :
     noSpaceEnds n = true ∧ (∀ c ∈ n, c ≠ '\n' ∧ isDelim c = false) ∧
     (∃ c r, n = c :: r ∧ c ≠ '#' ∧ c ≠ ';' ∧ c ≠ '[') ∧
-    (lower = true → n.all isAscii = true ∧ n.map asciiLower = n) := by
+    (lower = true → lowerName n = some n) := by
   unfold safeName at h
   simp only [Bool.and_eq_true, Bool.or_eq_true, Bool.not_eq_true', List.all_eq_true, bne_iff_ne, ne_eq,
     beq_iff_eq] at h
@@ -189,8 +189,7 @@ theorem safeName_spec (lower : Bool) (n : Name) (h : safeName lower n = true) :
   · intro hl
     rcases h4 with h4 | h4
     · rw [hl] at h4; cases h4
-    · exact ⟨by simpa [List.all_eq_true] using fun c hc => (h4 c hc).1,
-        map_asciiLower_id n (fun c hc => (h4 c hc).2)⟩
+    · exact h4
 
 theorem findIdx_delim (n rest : List Char) (h : ∀ c ∈ n, isDelim c = false) :
     (n ++ ' ' :: '=' :: rest).findIdx? isDelim = some (n.length + 1) := by
@@ -207,9 +206,39 @@ theorem sectionHeader_none (c : Char) (r : List Char) (h : c ≠ '[') : sectionH
   · rename_i heq; injection heq with e _; exact absurd e h
   · rfl
 
-theorem step_optLine (lower : Bool) (st : RS) (n v : List Char) (hn : safeName lower n = true)
-    (hv : noSpaceEnds v = true) (hs : st.sect = true) (hk : hasKey st.items n = false) :
-    step lower st (optLine n v) = .ok { st with items := st.items ++ [(n, v)] } := by
+theorem dset_of_not_mem {α : Type} (d : Dict α) (k : Name) (v : α) (h : k ∉ keys d) :
+    dset d k v = d ++ [(k, v)] := by
+  induction d with
+  | nil => rfl
+  | cons p r ih =>
+    obtain ⟨k', v'⟩ := p
+    have h1 : ¬ k' = k := fun e => h (by simp [keys, e])
+    have h2 : k ∉ keys r := fun e => h (by simp only [keys, List.map_cons, List.mem_cons]; exact Or.inr e)
+    simp [dset, h1, ih h2]
+
+theorem dupdate_of_disjoint {α : Type} (es : Dict α) : ∀ (acc : Dict α), WFD (acc ++ es) → dupdate acc es = acc ++ es := by
+  induction es with
+  | nil => intro acc _; simp [dupdate]
+  | cons e rest ih =>
+    intro acc h
+    have hk : e.1 ∉ keys acc := by
+      unfold WFD keys at h
+      rw [List.map_append, List.map_cons] at h
+      have := (List.nodup_append.1 h).2.2
+      intro hm
+      exact this _ hm _ List.mem_cons_self rfl
+    have h1 : dupdate acc (e :: rest) = dupdate (dset acc e.1 e.2) rest := rfl
+    rw [h1, dset_of_not_mem acc e.1 e.2 hk]
+    have h' : WFD ((acc ++ [(e.1, e.2)]) ++ rest) := by simpa using h
+    rw [ih _ h']; simp
+
+/-- the reader state while it is inside `[styles]` of a text written by `Theme.config` -/
+def stylesState (opts : Opts) (o : Option Name) : RS :=
+  { secs := [(stylesSect, opts)], cur := some stylesSect, optname := o, indent := 0, perr := false }
+
+theorem step_optLine (lower : Bool) (opts : Opts) (o : Option Name) (n v : List Char)
+    (hn : safeName lower n = true) (hv : noSpaceEnds v = true) (hk : n ∉ keys opts) :
+    step lower (stylesState opts o) (optLine n v) = .ok (stylesState (opts ++ [(n, [v])]) (some n)) := by
   obtain ⟨hne, hchars, ⟨c, r, hcr, hc1, hc2, hc3⟩, hlow⟩ := safeName_spec lower n hn
   obtain ⟨c', r0, d, r', hs1, hcsp, hrev, hdsp⟩ := noSpaceEnds_spec n hne
   obtain ⟨vc, vr, vd, vr', hvs, hvc, hvrev, hvd⟩ := noSpaceEnds_spec v hv
@@ -249,20 +278,28 @@ theorem step_optLine (lower : Bool) (st : RS) (n v : List Char) (hn : safeName l
     rw [this]
     exact rstrip_of_last v vd vr' hvrev hvd
   have hnnil : n.isEmpty = false := by rw [hs1]; rfl
+  have hind : ((c' :: (r0 ++ ' ' :: '=' :: ' ' :: v)).findIdx? (fun c => !isSpace c)).getD 0 = 0 := by
+    simp [List.findIdx?_cons, hcsp]
+  have hnone : (dget opts n).isSome = false := by
+    rw [(dget_eq_none_iff opts n).2 hk]; rfl
   unfold step
   simp only [hstrip]
   rw [hline]
   have hcom : (c' = '#' || c' = ';') = false := by simp [hc1, hc2]
-  simp only [hcom, Bool.false_eq_true, if_false, hcsp]
+  simp only [hcom, Bool.false_eq_true, if_false, hind]
   rw [sectionHeader_none c' _ hc3]
-  simp only [hs, Bool.not_true, Bool.false_eq_true, if_false]
   rw [← hline, hfind]
-  simp only [htake, hraw, hdrop, hval]
+  simp only [htake, hraw, hdrop, hval, stylesState, dget_cons, if_true, Option.getD_some]
   cases lower with
-  | false => simp [hk, hnnil]
+  | false =>
+    simp [hnone, hnnil, dset, dset_of_not_mem opts n [v] hk]
+    generalize openOption _ = oo
+    cases oo <;> rfl
   | true =>
-    obtain ⟨ha, hm⟩ := hlow rfl
-    simp [ha, hm, hk, hnnil]
+    have hm := hlow rfl
+    simp [hm, hnone, hnnil, dset, dset_of_not_mem opts n [v] hk]
+    generalize openOption _ = oo
+    cases oo <;> rfl
 
 /-! ## the whole text: `read_file` + `items("styles")` on what `Theme.config` writes -/
 
@@ -271,38 +308,50 @@ def entryLine (e : Name × List Char) : List Char := optLine e.1 e.2
 /-- the text `Theme.config` produces for the (sorted) entries `es` -/
 def render (es : List (Name × List Char)) : List Char := sectHeader ++ '\n' :: joinNL (es.map entryLine)
 
-theorem hasKey_false (items : List (Name × List Char)) (n : Name) (h : n ∉ keys items) :
-    hasKey items n = false := by
-  unfold hasKey
-  rw [Bool.eq_false_iff]
-  intro hc
-  rw [List.any_eq_true] at hc
-  obtain ⟨p, hp, he⟩ := hc
-  have : p.1 = n := by simpa using he
-  exact h (this ▸ List.mem_map_of_mem (f := Prod.fst) hp)
+/-- an option as the reader stores it: one value line -/
+def asOpt (e : Name × List Char) : Name × List (List Char) := (e.1, [e.2])
+
+theorem keys_map_asOpt (es : List (Name × List Char)) : keys (es.map asOpt) = keys es := by
+  simp [keys, List.map_map, Function.comp_def, asOpt]
 
 theorem readLines_entries (lower : Bool) (es : List (Name × List Char)) :
-    ∀ (acc : List (Name × List Char)) (perr : Bool),
+    ∀ (acc : List (Name × List Char)) (o : Option Name),
       (∀ e ∈ es, safeName lower e.1 = true ∧ noSpaceEnds e.2 = true) → WFD (acc ++ es) →
-      readLines lower { sect := true, items := acc, perr := perr } (es.map entryLine) =
-        .ok { sect := true, items := acc ++ es, perr := perr } := by
+      ∃ o', readLines lower (stylesState (acc.map asOpt) o) (es.map entryLine) =
+        .ok (stylesState ((acc ++ es).map asOpt) o') := by
   induction es with
-  | nil => intro acc perr _ _; simp [readLines]
+  | nil => intro acc o _ _; exact ⟨o, by simp [readLines]⟩
   | cons e rest ih =>
-    intro acc perr hs hnd
+    intro acc o hs hnd
     have he := hs e List.mem_cons_self
-    have hk : e.1 ∉ keys acc := by
+    have hk : e.1 ∉ keys (acc.map asOpt) := by
+      rw [keys_map_asOpt]
       unfold WFD keys at hnd
       rw [List.map_append, List.map_cons] at hnd
       have := (List.nodup_append.1 hnd).2.2
       intro hm
       exact this _ hm _ List.mem_cons_self rfl
-    have hstep := step_optLine lower { sect := true, items := acc, perr := perr } e.1 e.2 he.1 he.2 rfl
-      (hasKey_false acc e.1 hk)
-    simp only [List.map_cons, readLines, entryLine, hstep]
+    have hstep := step_optLine lower (acc.map asOpt) o e.1 e.2 he.1 he.2 hk
     have hnd' : WFD ((acc ++ [e]) ++ rest) := by simpa using hnd
-    have := ih (acc ++ [e]) perr (fun x hx => hs x (List.mem_cons_of_mem _ hx)) hnd'
-    simpa [entryLine] using this
+    obtain ⟨o', h'⟩ := ih (acc ++ [e]) (some e.1) (fun x hx => hs x (List.mem_cons_of_mem _ hx)) hnd'
+    refine ⟨o', ?_⟩
+    simp only [List.map_cons, readLines, entryLine, hstep]
+    have e1 : acc.map asOpt ++ [(e.1, [e.2])] = (acc ++ [e]).map asOpt := by simp [asOpt]
+    rw [e1]
+    simpa [entryLine] using h'
+
+theorem finishOpts_asOpt (es : List (Name × List Char)) (h : ∀ e ∈ es, noSpaceEnds e.2 = true) :
+    finishOpts (es.map asOpt) = es := by
+  induction es with
+  | nil => rfl
+  | cons e rest ih =>
+    have he := h e List.mem_cons_self
+    obtain ⟨c, r, d, r', hs1, _, hrev, hd⟩ := noSpaceEnds_spec e.2 he
+    have : rstrip (joinNL [e.2]) = e.2 := by
+      simp only [joinNL]; exact rstrip_of_last e.2 d r' hrev hd
+    have ih' := ih (fun x hx => h x (List.mem_cons_of_mem _ hx))
+    simp only [finishOpts, List.map_cons, asOpt, this] at ih' ⊢
+    rw [ih']
 
 theorem interpGo_id (v : List Char) (h : ∀ c ∈ v, c ≠ '%') : interpGo false v = .ok v := by
   induction v with
@@ -344,27 +393,36 @@ theorem cfgItems_render (lower interp : Bool) (es : List (Name × List Char))
     (hs : ∀ e ∈ es, safeName lower e.1 = true ∧ safeValue interp e.2 = true) (hnd : WFD es) :
     cfgItems lower interp (render es) = .ok es := by
   have hhead : '\n' ∉ sectHeader := by decide
-  have hstep0 : step lower {} sectHeader = .ok { sect := true } := by cases lower <;> rfl
+  have hstep0 : step lower {} sectHeader = .ok (stylesState [] none) := by cases lower <;> decide
   have hs' : ∀ e ∈ es, safeName lower e.1 = true ∧ noSpaceEnds e.2 = true :=
     fun e he => ⟨(hs e he).1, (safeValue_spec interp e.2 (hs e he).2).1⟩
-  have hread : readLines lower {} (splitNL (render es)) = .ok { sect := true, items := es, perr := false } := by
+  have hread : ∃ o, readLines lower {} (splitNL (render es)) = .ok (stylesState (es.map asOpt) o) := by
     unfold render
     rw [splitNL_append_nl _ _ hhead]
     cases es with
     | nil =>
-      have hstepE : step lower { sect := true } [] = .ok { sect := true } := by cases lower <;> rfl
-      simp only [List.map_nil, joinNL, splitNL, readLines, hstep0, hstepE]
+      have hstepE : step lower (stylesState [] none) [] = .ok (stylesState [] none) := by cases lower <;> decide
+      exact ⟨none, by simp only [List.map_nil, joinNL, splitNL, readLines, hstep0, hstepE]⟩
     | cons e rest =>
       rw [splitNL_joinNL _ (by simp) (by
         intro l hl
         obtain ⟨x, hx, rfl⟩ := List.mem_map.1 hl
         exact entryLine_noNL lower interp x (hs x hx))]
       simp only [readLines, hstep0]
-      have := readLines_entries lower (e :: rest) [] false hs' (by simpa using hnd)
-      simpa using this
+      obtain ⟨o, h⟩ := readLines_entries lower (e :: rest) [] none hs' (by simpa using hnd)
+      exact ⟨o, by simpa using h⟩
+  obtain ⟨o, hread⟩ := hread
+  have hdef : dget ([(stylesSect, es.map asOpt)] : Dict Opts) defaultSect = none := by
+    have : ¬ stylesSect = defaultSect := by decide
+    simp [dget_cons, this]
   unfold cfgItems
   rw [hread]
-  simp only [Bool.false_eq_true, if_false, Bool.not_true]
+  simp only [stylesState, Bool.false_eq_true, if_false, dget_cons, if_true, hdef, Option.getD_none]
+  have hfin : dupdate (finishOpts []) (finishOpts (es.map asOpt)) = es := by
+    rw [finishOpts_asOpt es (fun e he => (hs' e he).2)]
+    have : finishOpts ([] : Opts) = [] := rfl
+    rw [this, dupdate_of_disjoint es [] (by simpa using hnd)]; simp
+  rw [hfin]
   cases interp with
   | false => rfl
   | true =>
